@@ -11,6 +11,9 @@ def decide_ (enabled : Bool) (thr len clen : Nat) : Bool :=
 
 def handle (kind : String) (args : List String) (impl : String) : String :=
   match kind, args with
+  | "c13.swap", [_, n] =>
+    -- whatever the configuration was when a value was written, it reads back as written, and nothing crashes
+    if impl == s!"done={n} bad=0" then "ok" else s!"SPEC value-not-read-back-or-crash-while-the-configuration-was-replaced impl={impl}"
   | "c13.run", _ :: steps =>
     let rec go (enabled : Bool) (thr : Nat) (written : List String) : List String → Option (List String)
       | [] => some []
